@@ -22,7 +22,7 @@ RULE = ('Evaluation = one interleaving / one thread schedule of 2-4 chunks, each
         '(b) Threads calling run(data_k, prms=prms_k) under a controlled scheduler: sys.monitoring LINE events '
         'restricted to ampycloud code objects hand control to a seeded scheduler that lets exactly one thread '
         'proceed to its next ampycloud source line - in half of the schedules also to its next call / return from a C function, so that the gap between two library calls on one line can be pre-empted - (PCT-style priorities with d random change points, a '
-        'random-walk mode switching with probability p at every yield point, and a mode that demotes the running thread right after a library call returned to ampycloud code, and atomicity probes that park one thread at a static yield site - a source line or the return of a given library call into a given ampycloud line, each distinct site weighted equally - until all other threads have finished), so a schedule is a replayable sequence of '
+        'random-walk mode switching with probability p at every yield point, and a mode that demotes the running thread right after a library call returned to ampycloud code, and atomicity probes that park one thread at a static yield site - a source line or the return of a given library call into a given ampycloud line, each distinct site weighted equally - until all other threads have finished, or - two-site probes, swept systematically over the site pairs of the small functions - until a second thread stops at another site of the same function, after which the first one runs to completion), so a schedule is a replayable sequence of '
         'thread choices. Evidence lists line events, context switches, distinct schedule hashes and the function '
         'pairs observed overlapping. Non-trivial = the chunks differ in data or parameters; distinct = '
         'interleaving index resp. schedule hash.')
@@ -78,8 +78,10 @@ def make_cases(seed, key, n, same_data=False):
         if same_data and base_sc is not None:
             sc = base_sc
         else:
-            kind = (key + k) % 3
-            if kind == 0:
+            kind = (key + k) % 4
+            if kind == 3:
+                sc = scenes.quantised_scene(rng, nce=1 + k % 2)
+            elif kind == 0:
                 sc = scenes.bimodal_group_scene(rng, third=k % 2 == 0, n=50, order='shuf')
             elif kind == 1:
                 sc = scenes.close_chain_scene(rng, nl=4, nce=2)
@@ -303,6 +305,7 @@ class Sched:
         self.dead = False
         self.call_level = False
         self.park_k, self.park_site, self.park_done = None, None, False
+        self.park2_site, self.park2_done = None, False
 
     def register(self, k):
         with self.cv:
@@ -336,8 +339,15 @@ class Sched:
                     SITES[site] = SITES.get(site, 0) + 1
                 elif k == self.park_k and site == self.park_site and not self.park_done:
                     # atomicity probe: this thread stops here until every other thread has finished its whole run
+                    # (or, two-site probe, until another thread reaches the second site)
                     self.park_done = True
                     self.prio[k] = -1.0
+                elif self.park2_site is not None and self.park_done and not self.park2_done and k != self.park_k \
+                        and site == self.park2_site:
+                    # two-site probe: the second thread stops inside the same function, the first one resumes and
+                    # runs to completion, then the second one goes on
+                    self.park2_done = True
+                    self.prio[self.park_k] = 20.0
             for kk, v in self.where.items():
                 if kk != k and kk not in self.finished:
                     self.overlap.add(tuple(sorted((fn, v))))
@@ -369,6 +379,14 @@ class Sched:
 
 
 SITES = {}        # static yield sites discovered so far in this process: id -> hits
+
+
+def site_function(site):
+    """The ampycloud function a static site belongs to."""
+    kind, rest = site.split(':', 1)
+    if kind == 'return':
+        return rest.split('@', 1)[1].rsplit(':', 1)[0]
+    return rest.rsplit(':', 1)[0]
 
 
 def _line_cb(code, line):
@@ -476,6 +494,19 @@ def check_threads(desc):
                 if os.environ.get('VERIF_C13_SITE') in SITES:         # debugging aid: probe one given site
                     sc.park_site = os.environ['VERIF_C13_SITE']
                 sc.park_k = sidx % nthreads
+                if sidx % 3 == 2:
+                    # two-site probe inside one (small) function: systematic sweep over functions and site pairs
+                    fsites = {}
+                    for x in names:
+                        fsites.setdefault(site_function(x), []).append(x)
+                    small = sorted(f for f, v in fsites.items() if 2 <= len(v) <= 14)
+                    if small:
+                        q = (desc['i'] - 2000) * 10 + (j - 6)
+                        fs = fsites[small[q % len(small)]]
+                        r_ = q // len(small)
+                        sc.park_site = fs[r_ % len(fs)]
+                        sc.park2_site = fs[(r_ // len(fs) + r_) % len(fs)]
+                        tags.add('threads_two_site_probe')
                 parked_sites.add(sc.park_site)
             if sc.call_level:
                 sc.change = set(sc.rng.sample(range(1, 9000 * nthreads), 2 + sidx % 6)) if mode == 'pct' else set()
@@ -519,6 +550,8 @@ def check_threads(desc):
                       'park': 'threads_park_at_static_site'}[mode])
             if mode == 'park' and sc.park_done:
                 counters['park_probes_reached'] = counters.get('park_probes_reached', 0) + 1
+            if mode == 'park' and sc.park2_done:
+                counters['two_site_probes_reached'] = counters.get('two_site_probes_reached', 0) + 1
             for k in range(nthreads):
                 if errs[k] is not None:
                     oracles.V(viol, 'C13', 'run() raises under a thread schedule', thread=k, exc=type(errs[k]).__name__,
